@@ -410,9 +410,30 @@ func c16(raw json.RawMessage, resp *drv.Response) error {
 			cp := func(x []gf.E) []gf.E { return append([]gf.E{}, x...) }
 			d2.sigmas, d2.wires, d2.zs, d2.zsnext, d2.pps, d2.quotients = cp(d.sigmas), cp(d.wires), cp(d.zs), cp(d.zsnext), cp(d.pps), cp(d.quotients)
 			what := perturbOne(&d2, rng)
-			out2, _ := verifyReal(&d2)
-			resp.Count(key+"/"+what, false)
-			if out2 == "accept" {
+			// the reference decides whether the identity still holds after the change (an opening that is multiplied by a zero - a partial
+			// product that happens to be 0 - does not matter to it): accept exactly when it does
+			gv2 := gv
+			if req.Part == "real" {
+				var err error
+				if gv2, err = gateConstraints(&d2); err != nil {
+					continue
+				}
+			}
+			env2 := d2.env(gv2)
+			holds := true
+			for i := 0; i < s.NC; i++ {
+				a, okA := terms.Eval(s.Vanishing[i], env2)
+				b, okB := terms.Eval(s.Rhs[i], env2)
+				if !okA || !okB || !a.Eq(b) {
+					holds = false
+				}
+			}
+			out2, msg2 := verifyReal(&d2)
+			resp.Count(key+"/"+what, holds)
+			if holds && out2 != "accept" {
+				resp.Violate("c16/accept/"+out2+"-instead-of-accept-after-change "+sig, fmt.Sprintf("after changing %s the reference identity still holds, the PLONK check gives %s: %s", what, out2, msg2), map[string]any{"shape": []int{s.NC, s.RW, s.QD}, "what": what})
+			}
+			if !holds && out2 == "accept" {
 				resp.Violate("c16/reject/accepted "+sig, fmt.Sprintf("after changing %s the PLONK check still accepts", what), map[string]any{"shape": []int{s.NC, s.RW, s.QD}, "what": what})
 			}
 		}
@@ -563,8 +584,22 @@ func c16Degenerate(s *plonkShape, cd types.CommonCircuitData, req c16Req, resp *
 				l := lists[what]
 				ix := rng.Intn(len(l))
 				l[ix] = gf.EAdd(l[ix], gf.E{big.NewInt(int64(rng.Intn(2))), big.NewInt(int64(1 + rng.Intn(5)))})
+				// (the changed opening may be multiplied by a zero: the reference decides whether the combination still vanishes)
+				still := true
+				env2 := d2.env(nil)
+				for i := 0; i < s.NC; i++ {
+					if v, e := terms.Eval(s.Vanishing[i], env2); !e || !v.IsZero() {
+						still = false
+					}
+				}
 				out2, _ := verifyReal(&d2)
-				resp.Count(key+"/"+what+fmt.Sprint(ix), false)
+				resp.Count(key+"/"+what+fmt.Sprint(ix), still)
+				if still {
+					if out2 != "accept" {
+						resp.Violate("c16/degenerate/"+out2+"-instead-of-accept-after-change zeta=root "+sig, fmt.Sprintf("zeta on the subgroup: after changing %s[%d] every term still vanishes, yet the PLONK check gives %s", what, ix, out2), map[string]any{"what": what})
+					}
+					continue
+				}
 				if out2 == "accept" {
 					resp.Violate("c16/degenerate/reject-accepted zeta=root "+sig, fmt.Sprintf("zeta on the subgroup: after changing %s[%d] a chunk check no longer vanishes, yet the PLONK check accepts", what, ix), map[string]any{"what": what})
 				}
